@@ -13,7 +13,7 @@ EXPLANATION = (
     "from count inside the crate are exactly the allow-listed ones, each with its discharge."
     ' R03-threshold-window: 0 < THRESHOLD[b] <= 2*2^b, increasing — linear counting must not be used beyond the hand-over window the property tolerates. R03-table-index: the three tables are indexed with self.b - lo.'
 )
-NOT_DECIDED = ("every statistical clause of C03 — RMS error, bias, tail frequency, the linear-counting hand-over bump, small-range exactness: "
+NOT_DECIDED = "table entries perturbed by less than one standard error of the estimator; " + ("every statistical clause of C03 — RMS error, bias, tail frequency, the linear-counting hand-over bump, small-range exactness: "
                "statements about a distribution over hash streams whose determining constants (alpha, ~3000 table values) have no code-shape oracle")
 ASSUMPTIONS = ["registers.len() == 2^b and lo <= b <= hi for every HyperLogLog value (C20 R20-guarded-construction)", "bytecount::count does not panic"]
 
@@ -62,6 +62,28 @@ def run(ctx):
     ctx.check(not bad, "R03-table-shape", D + "RAW==BIAS", prog.consts[D + "BIAS_DATA_VEC"]["span"],
               "every row: len(RAW[r]) == len(BIAS[r]) >= K = %d (%d rows, %d values)" % (K, len(raw), sum(map(len, raw))),
               "rows %s: raw-estimate and bias rows differ in length or are shorter than K = %d" % (bad[:5], K))
+    # R03-bias-outlier: count() subtracts the mean of the K nearest bias entries, so ONE entry that sits d away from the line through
+    # its two neighbours shifts the estimate by about d / K. The accuracy clause budgets one standard error 1.04/sqrt(m) (relative,
+    # the rule takes the cardinality at the grid point as raw - bias): an isolated entry costing more than that alone breaks it.
+    # The threshold is the property's own error budget, not a number fitted to the tables (today's worst entry uses half of it).
+    if not bad:
+        outl = []
+        worst = 0.0
+        for r, (R_, B_) in enumerate(zip(raw, bias)):
+            sigma = 1.04 / math.sqrt(1 << (lo + r))
+            for i in range(1, len(B_) - 1):
+                x0, x1, x2 = R_[i - 1], R_[i], R_[i + 1]
+                if not all(isinstance(v, (int, float)) and math.isfinite(v) for v in (x0, x1, x2, B_[i - 1], B_[i], B_[i + 1])) or x2 == x0:
+                    continue
+                line = B_[i - 1] + (B_[i + 1] - B_[i - 1]) * (x1 - x0) / (x2 - x0)
+                card = max(R_[i] - B_[i], 1.0)
+                cost = abs(B_[i] - line) / K / (sigma * card)
+                worst = max(worst, cost)
+                if cost > 1.0:
+                    outl.append((lo + r, i, B_[i], round(cost, 2)))
+        ctx.check(not outl, "R03-bias-outlier", D + "BIAS_DATA_VEC:outliers", prog.consts[D + "BIAS_DATA_VEC"]["span"],
+                  "no bias entry deviates from the line through its neighbours by more than K standard errors of the estimator (worst: %.2f of the budget)" % worst,
+                  "bias entries (b, index, value, cost in standard errors) %s deviate from their neighbours by more than the whole error budget of count(): a mistyped table entry" % outl[:4])
     nonfinite = [(r, i) for tbl in (raw, bias) for r, row in enumerate(tbl) for i, v in enumerate(row) if not isinstance(v, (int, float)) or not math.isfinite(v)]
     ctx.check(not nonfinite and all(isinstance(v, int) and v >= 0 for v in thr), "R03-table-shape", D + "finite", None, "all table entries are finite numbers", "non-finite table entries at %s" % nonfinite[:3])
     okp = len(pow2) >= 256 and all(isinstance(v, float) and v > 0 and math.isfinite(v) for v in pow2)
